@@ -13,7 +13,8 @@ PROP = {
   ]
  ],
  "bounded": [
-  "soap_roundtrip"
+  "soap_roundtrip",
+  "form_post"
  ],
  "level": "other",
  "explanation": "Deductive part: the HTTP-Redirect encoder (Location = destination + glue + one urlencoded k=v pair per parameter, message = base64 of the raw-deflate stream), the redirect decoder, the lemma decode(encode(s)) == utf8(s) over the E-ZLIB / E-B64 axioms, and the HTTP-POST form (message and RelayState each appear as one value=\"html-escaped\" attribute). The SOAP packer is string surgery over ElementTree output, outside the subset: BOUNDED native round trip, labelled bounded. http_post_message / artifact / PAOS are not instantiated.",
